@@ -29,6 +29,7 @@ TRet == /\ E.ev = "ret"
         /\ Ck(E.criterion, "convergence reported although the returned solution does not meet the controller's criterion (and the limit was not reached)")
         /\ Ck(E.consistent, "value or gradient of the returned quadratic energy is inconsistent with its position")
         /\ Ck(E.hpd_ok, "ERROR reported for a Hermitian positive definite system")
+        /\ Ck(E.exact, "the solver returned CONVERGED on its own (vanishing residual) although the true residual is far from zero")
 TNext == l <= Len(Tr) /\ (TCheck0 \/ TCheck \/ TRet) /\ l' = l + 1 /\ UNCHANGED tid
 TSpec == TInit /\ [][TNext]_tvars
 Progress == Reached(tid, l - 1)
